@@ -77,7 +77,7 @@ const CLASSES: [(&str, &str, bool, bool); 4] = [
     ("-Y", "SyncNotSend", false, true),
     ("--", "std::rc::Rc<u8>", false, false),
 ];
-const ACTIONS: [&str; 5] = ["send", "sync", "spawn", "share", "clone"];
+const ACTIONS: [&str; 6] = ["send", "sync", "spawn", "share", "clone", "alias"];
 
 fn probe_program(level: &str, axis: &str, ty: &str, action: &str) -> String {
     let call = if axis == "rows" { "iter_rows_mut" } else { "iter_cols_mut" };
@@ -93,7 +93,9 @@ fn probe_program(level: &str, axis: &str, ty: &str, action: &str) -> String {
         "spawn" => "    std::thread::scope(|s| {\n        s.spawn(move || {\n            let it = it;\n            let _ = it.len();\n        });\n    });\n".to_string(),
         // share the iterator with another thread
         "share" => "    std::thread::scope(|s| {\n        s.spawn(|| {\n            let _ = it.len();\n        });\n    });\n".to_string(),
-        _ => "    let dup = it.clone();\n    let _ = dup.len();\n".to_string(),
+        "clone" => "    let dup = it.clone();\n    let _ = dup.len();\n".to_string(),
+        // touch the matrix while the iterator (outer, or an inner one that outlives the outer) is alive
+        _ => if level == "outer" { format!("    let second = m.{call}().len();\n    let _ = (it.len(), second);\n") } else { "    drop(outer);\n    m.clear();\n    let _ = it.len();\n".to_string() },
     };
     format!(
         "#![allow(unused)]\nuse matreex::Matrix;\n\n#[derive(Default)]\nstruct SyncNotSend(u8, std::marker::PhantomData<std::sync::MutexGuard<'static, u8>>);\n\nfn need_send<X: Send>(_: &X) {{}}\nfn need_sync<X: Sync>(_: &X) {{}}\n\nfn main() {{\n    let mut m: Matrix<{ty}> = Matrix::new();\n{bind}{act}}}\n"
@@ -117,7 +119,7 @@ fn compile_probes(out: &mut Out) {
         for axis in ["rows", "cols"] {
             for (ci, (_cls, ty, _, _)) in CLASSES.iter().enumerate() {
                 for action in ACTIONS {
-                    if action == "clone" && ci != 0 { continue; }
+                    if (action == "clone" || action == "alias") && ci != 0 { continue; }
                     let name = format!("p_{level}_{axis}_{ci}_{action}");
                     let text = probe_program(level, axis, ty, action);
                     let path = bin.join(format!("{name}.rs"));
@@ -171,7 +173,8 @@ fn compile_probes(out: &mut Out) {
         let want = match action {
             "send" | "spawn" => if send { "accept" } else { "reject E0277" },
             "sync" | "share" => if sync { "accept" } else { "reject E0277" },
-            _ => "reject E0599",
+            "clone" => "reject E0599",
+            _ => "reject E0499",
         };
         if obs != want {
             out.oracle_fail(&format!("{op}: the type checker says `{obs}` for the program probes/src/bin/{name}.rs, the property requires `{want}`"));
@@ -359,9 +362,9 @@ pub fn run_c17(out: &mut Out, rng: &mut Rng, tier: Tier) -> String {
         }
     }
     format!(
-        "type level: in-process auto-trait probes (16: outer / inner iterator x rows / cols x the four (Send, Sync) classes of element types u64, Cell<u32>, a Sync-but-not-Send struct, Rc<u8>) and {} compile probes (cargo check of one client program each under /verif/probes: need_send / need_sync bounds, moving the iterator into a scoped thread, sharing it with a scoped thread, cloning it), verdict and diagnostic code compared with the model and with the property's rule; \
+        "type level: in-process auto-trait probes (16: outer / inner iterator x rows / cols x the four (Send, Sync) classes of element types u64, Cell<u32>, a Sync-but-not-Send struct, Rc<u8>) and {} compile probes (cargo check of one client program each under /verif/probes: need_send / need_sync bounds, moving the iterator into a scoped thread, sharing it with a scoped thread, cloning it, touching the matrix while the iterator is alive), verdict and diagnostic code compared with the model and with the property's rule; \
          run time: {cases} threaded cases: shapes 0..5 x 0..5 plus 2x9, 9x2, 16x3, 3x16, 33x64, 5x200, 120x7, both orders, rows and columns, outer call patterns of next / next_back (all-front, all-back, alternating, back-then-front, random; mostly running past exhaustion, a quarter partial), inner patterns likewise, 1..16 threads (more and fewer vectors than threads) with the vectors assigned to threads by the run's PRNG, per-element jitter, a barrier start, the outer iterator itself shared (len) with and then moved to other threads. \
          Oracle: ownership map thread -> addresses pairwise disjoint, every reference at the address of the position it stands for, no vector yielded twice, final matrix equal to the sequential run through indexing. A case = one probe group or one threaded run",
-        2 * 2 * (4 * 4 + 1)
+        2 * 2 * (4 * 4 + 2)
     )
 }
